@@ -441,10 +441,225 @@ func c15Replace(c *core.Ctx, src []byte, ver string, r *core.Rand) {
 	}
 }
 
+// c15TokenEdit: a token (or free-floating token) of a parsed tree gets a new Value — same length or not —
+// while its position stays what it was. The printer must print the value that is in the tree: the output is
+// the original output with exactly that chunk replaced (a separating blank at its boundary is allowed).
+func c15TokenEdit(c *core.Ctx, src []byte, ver string, r *core.Rand) {
+	pr := obs.Parse(src, ver, true)
+	if pr.Panic != nil || pr.Root == nil || len(pr.Errors) > 0 {
+		return
+	}
+	w := core.W(src, ver)
+	before := obs.NewProv(src)
+	if p := printTo(pr.Root, before); p != nil {
+		return
+	}
+	toks := obs.SourceOrderTokens(pr.Root)
+	var cand []obs.TokRef
+	for _, tr := range toks {
+		if len(tr.Tok.Value) > 0 && tr.Tok.ID != token.T_OPEN_TAG && tr.Tok.ID != token.T_INLINE_HTML && !(tr.Tok.ID == token.T_ECHO && bytes.HasPrefix(tr.Tok.Value, []byte("<?"))) && !bytes.Contains(tr.Tok.Value, []byte("?>")) && !bytes.Contains(tr.Tok.Value, []byte("<?")) && !bytes.HasPrefix(tr.Tok.Value, []byte("#!")) {
+			cand = append(cand, tr)
+		}
+	}
+	if len(cand) == 0 {
+		return
+	}
+	for try := 0; try < 3; try++ {
+		tr := cand[r.Intn(len(cand))]
+		old := tr.Tok.Value
+		ci := -1
+		for i, ch := range before.Chunks {
+			if len(ch.Data) > 0 && &ch.Data[0] == &old[0] && len(ch.Data) == len(old) {
+				ci = i
+			}
+		}
+		if ci < 0 {
+			c.Inconclusive("edited token's chunk not located in the original output")
+			continue
+		}
+		var nv []byte
+		mode := "same-length"
+		if r.Bool() {
+			// same length, first and last byte kept (the neighbours keep touching what they touched)
+			nv = append([]byte(nil), old...)
+			k := len(nv) / 2
+			switch b := nv[k]; {
+			case b == 'q':
+				nv[k] = 'z'
+			case b >= '0' && b <= '9':
+				nv[k] = '0' + (b-'0'+1)%10
+			case b == '+':
+				nv[k] = '-'
+			case b == ' ' || b == '\t' || b == '\n' || b == '\r':
+				nv[k] = map[byte]byte{' ': '\t', '\t': ' ', '\n': ' ', '\r': ' '}[b]
+			default:
+				if len(nv) == 1 {
+					nv[k] = '+'
+				} else {
+					nv[k] = 'q'
+				}
+			}
+		} else {
+			mode = "other-length"
+			nv = append(append(append([]byte(nil), old[:1]...), []byte("qq7")...), old[len(old)-1:]...)
+		}
+		if bytes.Equal(nv, old) {
+			continue
+		}
+		tr.Tok.Value = nv
+		after, p := printString(pr.Root)
+		tr.Tok.Value = old
+		if p != nil {
+			c.Violation(p.Sig, "printer panicked after a token value was edited: "+p.Msg, w)
+			return
+		}
+		var pre, post strings.Builder
+		for _, ch := range before.Chunks[:ci] {
+			pre.Write(ch.Data)
+		}
+		for _, ch := range before.Chunks[ci+1:] {
+			post.Write(ch.Data)
+		}
+		ok := false
+		for _, a := range []string{pre.String(), pre.String() + " "} {
+			for _, b := range []string{post.String(), " " + post.String()} {
+				if after == a+string(nv)+b {
+					ok = true
+				}
+			}
+		}
+		slot := obs.Kind(tr.Owner) + "." + tr.Slot
+		if tr.FF {
+			slot += ".FreeFloating"
+		}
+		c.Add("token_value_edits", 1)
+		c.Cover("token_value_edit_modes", mode)
+		if !ok {
+			c.Violation("print|token-edit|"+mode+"|stale-or-misplaced-text", fmt.Sprintf("the value of %s was changed from %q to %q (position untouched); the printer does not print the original output with that text replaced: %s", slot, old, nv, obs.FirstDiff(pre.String()+string(nv)+post.String(), after)), w.With("edited_slot", slot))
+			return
+		}
+	}
+}
+
+// c15StmtEdit: one whole statement of a statement list is replaced by a token-less statement. What the printer
+// writes before and after that statement must stay what it was; if the replaced statement carried the open tag
+// that follows inline HTML (also inline HTML nested in a block), the printer has to reopen PHP mode itself,
+// exactly once and in place.
+func c15StmtEdit(c *core.Ctx, src []byte, ver string, r *core.Rand) {
+	pr := obs.Parse(src, ver, true)
+	if pr.Panic != nil || pr.Root == nil || len(pr.Errors) > 0 {
+		return
+	}
+	w := core.W(src, ver)
+	before := obs.NewProv(src)
+	if p := printTo(pr.Root, before); p != nil {
+		return
+	}
+	var cand []slotRef
+	for _, s := range exprSlots(pr.Root) {
+		if s.field != "Stmts" || s.index < 0 {
+			continue
+		}
+		k := obs.Kind(s.node)
+		if k == "StmtInlineHtml" || k == "StmtHaltCompiler" || k == "StmtNop" || !strings.HasPrefix(k, "Stmt") || k == "StmtCase" || k == "StmtDefault" {
+			continue
+		}
+		pk := obs.Kind(s.parent)
+		if pk == "StmtClass" || pk == "StmtInterface" || pk == "StmtTrait" || pk == "StmtSwitch" {
+			continue
+		}
+		if len(obs.SourceOrderTokens(s.node)) == 0 {
+			continue
+		}
+		cand = append(cand, s)
+	}
+	if len(cand) == 0 {
+		return
+	}
+	// prefer a statement that follows inline HTML
+	s := cand[r.Intn(len(cand))]
+	for _, x := range cand {
+		if x.index > 0 && r.Chance(1, 2) {
+			list := reflect.ValueOf(x.parent).Elem().FieldByName("Stmts")
+			if prev, ok := list.Index(x.index - 1).Interface().(ast.Vertex); ok && obs.Kind(prev) == "StmtInlineHtml" {
+				s = x
+				break
+			}
+		}
+	}
+	toks := obs.SourceOrderTokens(s.node)
+	first, last := toks[0].Tok, toks[len(toks)-1].Tok
+	lo, hi := -1, -1
+	for i, ch := range before.Chunks {
+		if len(ch.Data) == 0 {
+			continue
+		}
+		if lo < 0 && len(first.Value) > 0 && &ch.Data[0] == &first.Value[0] {
+			lo = i
+		}
+		if len(last.Value) > 0 && &ch.Data[0] == &last.Value[0] {
+			hi = i + 1
+		}
+	}
+	if lo < 0 || hi <= lo {
+		c.Inconclusive("replaced statement's token chunks not located in the original output")
+		return
+	}
+	ownsOpenTag, ownsClose := false, false
+	for _, tr := range toks {
+		if tr.Tok.ID == token.T_OPEN_TAG || (tr.Tok.ID == token.T_ECHO && bytes.HasPrefix(tr.Tok.Value, []byte("<?"))) {
+			ownsOpenTag = true
+		}
+		if bytes.Contains(tr.Tok.Value, []byte("?>")) {
+			ownsClose = true // (";" followed by a close tag is one token: the printer derives its mode from that text)
+		}
+	}
+	if lo == 0 || ownsClose {
+		return // the very first chunk (file start) or a statement closed by "?>": other rules apply
+	}
+	word := "zqstmt9"
+	setSlot(s, &ast.StmtExpression{Expr: &ast.Identifier{Value: []byte(word)}})
+	after, p := printString(pr.Root)
+	setSlot(s, s.node)
+	if p != nil {
+		c.Violation(p.Sig, "printer panicked after replacing a statement: "+p.Msg, w)
+		return
+	}
+	var pre, post strings.Builder
+	for _, ch := range before.Chunks[:lo] {
+		pre.Write(ch.Data)
+	}
+	for _, ch := range before.Chunks[hi:] {
+		post.Write(ch.Data)
+	}
+	glue := []string{""}
+	cls := "in-php-mode"
+	if ownsOpenTag {
+		// (the property does not say that PHP mode must be reopened: only that nothing outside the statement changes)
+		glue = []string{"<?php ", "<?php\n", "<?php  ", ""}
+		cls = "after-inline-html"
+	}
+	ok := false
+	for _, g := range glue {
+		for _, a := range []string{pre.String(), pre.String() + " "} {
+			for _, b := range []string{post.String(), " " + post.String()} {
+				if after == a+g+word+";"+b {
+					ok = true
+				}
+			}
+		}
+	}
+	c.Add("statement_replacements", 1)
+	c.Cover("statement_replacements", cls+" in "+obs.Kind(s.parent))
+	if !ok {
+		c.Violation("print|replace-stmt|"+cls+"|"+obs.Kind(s.parent)+"|output-outside-statement-changed", fmt.Sprintf("replacing a %s in %s.Stmts by a token-less statement changed the output outside it (or PHP mode was not reopened once, in place): %s", obs.Kind(s.node), obs.Kind(s.parent), obs.FirstDiff(pre.String()+glue[0]+word+";"+post.String(), after)), w)
+	}
+}
+
 func init() {
 	core.Register(&core.Check{
 		ID:   "C15",
-		Rule: "cases = G5 synthetic nodes: every node kind x slot subsets (all 2^k for k<=12, else single/double toggles + PRNG subsets), every token a unique marker with unique free-floating markers, lists of 1..3 unique leaves with n-1 or n unique separators  ++  error-free parsed corpus/hostile inputs with one PRNG-chosen expression subtree edited three ways (replaced by a marker leaf, replaced by a token-less word, wrapped into a token-less print node); non-trivial = at least one marker expected in the output / a replacement whose surroundings were compared; distinct by (kind, subset) / (input, version, chunk range)",
+		Rule: "cases = G5 synthetic nodes: every node kind x slot subsets (all 2^k for k<=12, else single/double toggles + PRNG subsets), every token a unique marker with unique free-floating markers, lists of 1..3 unique leaves with n-1 or n unique separators  ++  error-free parsed corpus/hostile inputs with one PRNG-chosen expression subtree edited three ways (replaced by a marker leaf, replaced by a token-less word, wrapped into a token-less print node), or one token / free-floating token given a new value of the same or another length with its position untouched, or one whole statement (preferably the one after inline HTML, also inside blocks) replaced by a token-less statement; non-trivial = at least one marker expected in the output / a replacement whose surroundings were compared; distinct by (kind, subset) / (input, version, chunk range)",
 		Assumptions: []string{
 			"expected order = struct field order with separator token lists interleaved with the list before them; a []byte Value is the default text of the token slot before it (printer contract visible in all leaf kinds)",
 			"glue the printer may add by itself: PHP keywords/punctuation, '<?php ', '?>', single spaces",
@@ -460,14 +675,21 @@ func init() {
 			r := core.NewRand(c.P.Seed, "C15in", idx)
 			cor := gen.Corpus()
 			var src []byte
+			ver := r.Pick("5.6", "7.4", "7.0", "5.3")
 			if r.Chance(2, 3) {
 				src = []byte(cor[r.Intn(len(cor))].Src)
 			} else {
 				pc := genParseCase(c.P.Seed, "C15gen", idx, 20)
-				c15Replace(c, pc.Src, pc.Ver, r)
-				return
+				src, ver = pc.Src, pc.Ver
 			}
-			c15Replace(c, src, r.Pick("5.6", "7.4", "7.0", "5.3"), r)
+			switch idx % 4 {
+			case 1:
+				c15TokenEdit(c, src, ver, r)
+			case 2:
+				c15StmtEdit(c, src, ver, r)
+			default:
+				c15Replace(c, src, ver, r)
+			}
 		},
 		RunWitness: func(c *core.Ctx, w core.Witness) {
 			c15Replace(c, w.Src, w.Ver, core.NewRand(c.P.Seed, "C15w"))
